@@ -3,6 +3,7 @@ import ast
 import re
 
 from ..core import AnalysisError
+from .shared_py import inn
 from ..pyfront import unparse, try_const, path_conditions, norm_key
 from .. import predabs, templ
 from . import shared_raw as R
@@ -106,13 +107,13 @@ def prophy_enforcement(ctx, L):
         L.check(piece in src, 'F8.enforcement', 'prophy|D6-' + k, f.site(), 'rule D6: %s' % why, '')
     sc = pp.func('Parser._is_type_sizer_compatible')
     s = ws(unparse(sc.node))
-    L.check("if typename in {type_ + width for type_ in 'ui' for width in ['8', '16', '32', '64']}: return True" in s and
-            'elif typename in self.typedecls and isinstance(self.typedecls[typename], model.Typedef): return self._is_type_sizer_compatible(self.typedecls[typename].type_name' in s
+    L.check(inn("if typename in {type_ + width for type_ in 'ui' for width in ['8', '16', '32', '64']}: return True", s) and
+            inn('elif typename in self.typedecls and isinstance(self.typedecls[typename], model.Typedef): return self._is_type_sizer_compatible(self.typedecls[typename].type_name', s)
             and s.rstrip().endswith('else: return False'), 'F8.enforcement', 'prophy|D6-integer-set', sc.site(),
             'a type is sizer-compatible iff it is one of the eight integer builtins or a typedef chain ending in one (float, double, '
             'byte, enums and composites are not)', s)
     # D7 duplicates
-    L.check("self._parser_check(name not in fieldnames, \"field '{}' redefined\".format(name), line, pos)" in src and 'fieldnames.add(name)' in src,
+    L.check(inn("self._parser_check(name not in fieldnames, \"field '{}' redefined\".format(name), line, pos)", src) and 'fieldnames.add(name)' in src,
             'F8.enforcement', 'prophy|D7-fields', f.site(), 'duplicate field names are errors', '')
     u = pp.func('Parser.p_union_def')
     us = ws(unparse(u.node))
@@ -248,11 +249,11 @@ def check_nodes(ctx, L):
     for modname, cls in (('prophyc.generators.cpp', 'CppGenerator'), ('prophyc.generators.cpp_full', 'CppFullGenerator')):
         f = ctx.py.mod(modname).func(cls + '.check_nodes')
         s = ws(unparse(f.node))
-        L.check("if isinstance(n, (model.Struct, model.Union)) and n.byte_size is None: raise GenerateError('{0} byte size unknown'.format(n.name))" in s,
+        L.check(inn("if isinstance(n, (model.Struct, model.Union)) and n.byte_size is None: raise GenerateError('{0} byte size unknown'.format(n.name))", s),
                 'C12e.check-nodes', cls + '|unknown-size', f.site(), 'types of unknown size cannot be laid out in C++ and must be refused', s)
     f = ctx.py.mod('prophyc.generators.cpp_full').func('CppFullGenerator.check_nodes')
     s = ws(unparse(f.node))
-    L.check('if m.bound: if m.bound in occured: raise GenerateError(' in s and 'else: occured.add(m.bound)' in s, 'C12e.check-nodes',
+    L.check(inn('if m.bound: if m.bound in occured: raise GenerateError(', s) and inn('else: occured.add(m.bound)', s), 'C12e.check-nodes',
             'CppFullGenerator|one-array-per-sizer', f.site(), 'the C++ full codec supports one array per sizer; more must be refused', s)
     b = ctx.py.mod('prophyc.generators.base').func('GeneratorBase.serialize')
     L.check(ws(unparse(b.node.body[0])) == 'self.check_nodes(nodes)', 'C12e.check-nodes', 'serialize|check-first', b.site(),
